@@ -257,6 +257,9 @@ def family_bounds():
         [(-1.5, 1.5, False, 0.5), (1.0, 3.0, True, 1.0), (0.0, 1.0, True, 1.0)],
         [(0.5, 2.0, False, 0.5), (-3.0, -1.0, True, 1.0), (1.0, 1.0, True, 1.0)],
         [(-2.0, 0.0, False, 0.5), (0.0, 0.0, True, 1.0), (0.0, 1.0, True, 1.0)],
+        [(-1.5, 0.5, False, 0.5), (-3.0, 1.0, True, 1.0), (0.0, 1.0, True, 1.0)],          # asymmetric zero-crossing
+        # integer variables at the lower NL indices (class "nonlinear in both"), the continuous one last (class "linear")
+        [(-2.0, 2.0, True, 1.0, 'b'), (0.0, 1.0, True, 1.0, 'b'), (0.0, 2.0, False, 0.5, 'l')],
     ]
     d1n, d1l = depth1(False)
     for di, V in enumerate(doms):
